@@ -243,11 +243,7 @@ fn emit_bytes<Pk: CKey, Ctx: ScriptContext<Key = Pk>>(out: &mut Out, u: &Univers
     let h = script_hex(bytes);
     let (lx, toks) = lib_lex(bytes);
     out.line(&format!("C lex {}", h), &lx);
-    // Known finding (lexer accepts `NUMEQUAL VERIFY` next to `NUMEQUALVERIFY`): judged on the
-    // fixed witnesses of `handmade` only, so that the finding is a fixed list of inputs; every
-    // other generated input containing that opcode pair keeps its C lines and `J nopanic`.
-    let judge = tag == WITNESS_TAG || !has_numequal_verify_pair(bytes);
-    if judge { out.line(&format!("J lexcanon {} {}", h, lx), "ok"); } else { out.count("skip:J canon/lexcanon on inputs with a NUMEQUAL VERIFY pair (known finding, judged on the witnesses)"); }
+    out.line(&format!("J lexcanon {} {}", h, lx), "ok");
     let d = lib_decode::<Pk, Ctx>(u, bytes, false);
     let known = toks.as_ref().map(|t| u.all_known(t)).unwrap_or(true);
     if known {
@@ -257,10 +253,8 @@ fn emit_bytes<Pk: CKey, Ctx: ScriptContext<Key = Pk>>(out: &mut Out, u: &Univers
     }
     let verdict = |d: &Dec| match &d.reenc { Some(r) => script_hex(r), None => "ERR".to_string() };
     let ds = lib_decode::<Pk, Ctx>(u, bytes, true);
-    if judge {
-        out.line(&format!("J canon {} {} {}", ctx.name(), h, verdict(&d)), "ok");
-        out.line(&format!("J canon {}:sane {} {}", ctx.name(), h, verdict(&ds)), "ok");
-    }
+    out.line(&format!("J canon {} {} {}", ctx.name(), h, verdict(&d)), "ok");
+    out.line(&format!("J canon {}:sane {} {}", ctx.name(), h, verdict(&ds)), "ok");
     let p = lx == "PANIC" || d.panicked || ds.panicked;
     out.line(&format!("J nopanic {}:{} {} {}", ctx.name(), tag, h, if p { "PANIC" } else { "ok" }), "ok");
     let cls = if d.reenc.is_some() { "accepted".to_string() } else { d.wire.clone() };
@@ -385,7 +379,7 @@ fn corpus(ctx: CtxK) -> Vec<Node> {
     v.push(Node::Thresh(2, vec![pk(0), Node::Alt(Box::new(Node::AndV(Box::new(vpk(1)), Box::new(pk(2))))), spk(3)]));
     // tree height at the recursion limit: `and_v(X,and_v(Y,Z))` with height(X) = 400 / 401.  The
     // decoder returns the left-nested chain, which is one level higher; at 402 the round trip
-    // fails (known finding).  Only Taproot has no opcode limit that rejects the long n: chain.
+    // fails (KNOWN FINDING, not fixed).  Only Taproot has no opcode limit that rejects the long n: chain.
     if ctx == CtxK::Tap {
         for depth in [398usize, 399] {
             let mut x = pk(0);
@@ -423,13 +417,7 @@ fn seeds(ctx: CtxK) -> Vec<Node> {
 
 /* ------------------------------------------------------------------ malformed */
 
-const WITNESS_TAG: &str = "numequal-verify-witness";
-
-/// `OP_NUMEQUAL OP_VERIFY` as two adjacent instructions
-fn has_numequal_verify_pair(b: &[u8]) -> bool {
-    let ins = instr_bounds(b);
-    ins.windows(2).any(|w| w[0].1 - w[0].0 == 1 && w[1].1 - w[1].0 == 1 && b[w[0].0] == 0x9c && b[w[1].0] == 0x69)
-}
+const WITNESS_TAG: &str = "numequal-verify-regression";
 
 /// split a script into instruction byte ranges (best effort, direct pushes and PUSHDATA1/2)
 fn instr_bounds(b: &[u8]) -> Vec<(usize, usize)> {
@@ -645,7 +633,8 @@ fn handmade(ctx: CtxK) -> Vec<(String, Vec<u8>)> {
             v.push(("multi_a-twochecksig".into(), t));
         }
     }
-    // witnesses of the known finding: `OP_NUMEQUAL OP_VERIFY` lexes like `OP_NUMEQUALVERIFY`
+    // regression inputs (lexer fix 042abd7f): `OP_NUMEQUAL OP_VERIFY` must be rejected as a
+    // non-minimal verify; before the fix these were accepted and re-encoded to other bytes
     v.push((WITNESS_TAG.into(), vec![0x51, 0x9c, 0x69]));
     if ctx == CtxK::Tap {
         // and_v(v:multi_a(1,K),1) with the verify split off
